@@ -1012,6 +1012,12 @@ func (x *concExec) runEnv(env []Op) {
 					for i := 0; i < 60 && !x.stormStop; i++ {
 						// same bounded-delay assumption as for the first request
 						w.WaitCondSteps("rotated-flush-done", 200000, func() bool { return w.TasksDone("ds.flush", 0) })
+						if gaps.Bool(1, 5) && x.gcRunning() {
+							// the administrator cancels the running pass and asks again at once: the
+							// cancelled pass is still winding down (rest of its file, truncate, hint dump)
+							gcCancel(g, x.plan.Cfg.GCWeb, op.GCBucket)
+							x.out.probe("gc-cancel-then-request")
+						}
 						do()
 						if len(x.gcTasks) > 0 && !x.gcRunning() && i > 3 {
 							return
